@@ -185,6 +185,12 @@ struct WorldSO : World, Net {
     relay = kn.getb("relay", false);
     if (kn.has("timeoutremote")) k->put_file(t.home + "/control/timeoutremote", std::to_string(kn.geti("timeoutremote")) + "\n");
     if (kn.has("timeoutconnect")) k->put_file(t.home + "/control/timeoutconnect", std::to_string(kn.geti("timeoutconnect")) + "\n");
+    // queue/lock/tcpto as earlier deliveries to OTHER hosts left it: all 64 slots taken (the next timeout has to recycle one), or a shorter file
+    if (kn.has("tcpto_table")) { std::string kind = kn.gets("tcpto_table"), tb; Rng tr(mix64(plan->seed, 0x7c970));
+      { int n = kind == "full" ? 64 : (int)tr.range(1, 63);
+        for (int q = 0; q < n; q++) { std::string rec(16, '\0'); rec[0] = 10; rec[1] = (char)200; rec[2] = (char)(q >> 8); rec[3] = (char)(q + 1); rec[4] = (char)tr.range(1, 10); uint32_t when = (uint32_t)(k->clock - (int64_t)tr.below(20000)); rec[8] = (char)when; rec[9] = (char)(when >> 8); rec[10] = (char)(when >> 16); rec[11] = (char)(when >> 24); tb += rec; }
+        if (kind == "odd") tb += std::string((size_t)tr.range(1, 15), '\1'); }
+      k->put_file(t.home + "/queue/lock/tcpto", tb, 0644, t.uids["qmailr"], t.gid_qmail); k->probe("tcpto_table_" + kind); }
     if (kn.has("smtproutes")) { std::string s; for (auto &x : kn["smtproutes"].a) s += x.str() + "\n"; k->put_file(t.home + "/control/smtproutes", s); }
     // zone and hosts
     const Json &z = kn["zone"];
@@ -201,6 +207,7 @@ struct WorldSO : World, Net {
     g_net = this;
   }
 
+  int64_t remote_last_event = 0;
   void driver() override {
     std::string mp = t.qp("mess", 700, true);
     k->put_file(mp, msg, 0644, t.uids["qmailq"], t.gid_qmail);
@@ -215,6 +222,7 @@ struct WorldSO : World, Net {
       k->probe("earlier_remote_run");
     }
     connect_order.clear();
+    remote_last_event = k->clock;
     remote_pid = k->spawn(k->cp(), t.home + "/bin/qmail-remote", argv, {}, {{0, k->of_file(mp, O_RDONLY)}, {1, k->of_sink(rout)}, {2, k->of_sink(errs)}}, t.uids["qmailr"], t.gid_qmail, "/");
     k->block([this] { for (auto &pp : k->procs) if (pp.second->st == Proc::LIVE && !pp.second->immortal) return false; return true; }, k->clock + 1000000, false, true);
     k->stop = true;
@@ -223,6 +231,12 @@ struct WorldSO : World, Net {
   void on_event(const Event &e) override {
     Proc *p = e.proc; if (!p) return;
     if (e.pid == remote_pid && e.call == C_EXIT) { remote_done = true; remote_status = (int)e.a; }
+    // qmail-remote(8): control/timeoutconnect bounds the wait for a connection (default 60 s). A connect call that comes back later than
+    // that has sat in the kernel's own, much longer, limit: the socket was not made non-blocking or the timeout not applied.
+    if (e.pid == remote_pid) {
+      if (e.call == C_CONNECT && c09) { int64_t tc = plan->knobs.geti("timeoutconnect", 60); if (k->clock - remote_last_event > tc + 2) violate("C09.connect-not-bounded", "connect() to " + std::to_string((uint32_t)e.a >> 24) + "." + std::to_string(((uint32_t)e.a >> 16) & 255) + "." + std::to_string(((uint32_t)e.a >> 8) & 255) + "." + std::to_string((uint32_t)e.a & 255) + " returned after " + std::to_string(k->clock - remote_last_event) + " s, timeoutconnect is " + std::to_string(tc)); }
+      remote_last_event = k->clock;
+    }
     if (p->role == "qmail-queue" && e.call == C_LINK && e.ret == 0 && e.path2.find("/queue/todo/") != std::string::npos && e.ino) {
       Q m; const std::string &env = e.ino->data; size_t i = 0;
       while (i < env.size()) { size_t z = env.find('\0', i); if (z == std::string::npos) break; std::string r = env.substr(i, z - i); if (!r.empty() && r[0] == 'F') m.sender = r.substr(1); else if (!r.empty() && r[0] == 'T') m.rcpts.push_back(r.substr(1)); i = z + 1; }
